@@ -9,6 +9,14 @@ ALL = ["C%02d" % i for i in range(1, 21)]
 
 # id -> dict(level, technique, text, note, design_ref, engine)
 CHECKS = {
+    "C03": dict(
+        level="exploration",
+        engine="E1-enum",
+        technique="bounded-exhaustive enumeration of the ranked program space rendered by the engine and by an independent reference interpreter (differential)",
+        text="Every program of the depth-1 and depth-2 generator spaces (1.96e5 programs: all nestings of if/else, for with else / filter / unpacking / recursion, set, set-block, with, macros with defaults and keyword arguments, call blocks, filter blocks, autoescape blocks, break/continue, with leaves that read and write variables inside and outside every scope) under 3 contexts is rendered by the engine and by R, a 500-line tree walker over its own value type implementing the documented rules (scope per construct, clean scope per loop iteration, if-branches and template level persist, macro closures with definition-frame values, argument binding, caller, loop recursion, for-else, loop filters, unpacking, safe-string capture under auto-escaping); outputs must be identical or both must fail. Thorough adds every 41st depth-3 program (3.7e6 evaluations). The loop object clause prints every field in every iteration for 11 sequence kinds (list, tuple, map keys, items, range, lazy iterable, string, reversed, sliced, |list, filtered loop) x lengths 0..4 against directly computed values.",
+        note="R is the trusted base; every disagreement was triaged by hand (three engine defects fixed, two gaps in R closed). R deliberately leaves undefined: includes/blocks, `set` in a for-else body read afterwards, macro defaults referring to parameters, conditional expressions; such programs are reported as 'outside R'.",
+        design_ref="2/C03",
+    ),
     "C15": dict(
         level="model_checking",
         engine="E3-hist",
